@@ -42,17 +42,17 @@ func init() {
 
 // Pre is an arbitrary register state (all raw fields of the interpreters' CPU structs).
 type Pre struct {
-	PC, SP, RA, RX, RY, RD         uint16
-	RAh, RAl, RXl, RYl, RDBR, RK   uint8
-	N, V, M, X, D, I, Z, C, B, E   uint8
-	Interrupt, Cycles, WDM, PRK    uint8
-	PPC                            uint16
-	AllCycles                      uint64
-	Stopped                        bool
-	EA                             uint32
-	Addr                           uint16
-	Mode                           uint8
-	BusM                           uint8
+	PC, SP, RA, RX, RY, RD       uint16
+	RAh, RAl, RXl, RYl, RDBR, RK uint8
+	N, V, M, X, D, I, Z, C, B, E uint8
+	Interrupt, Cycles, WDM, PRK  uint8
+	PPC                          uint16
+	AllCycles                    uint64
+	Stopped                      bool
+	EA                           uint32
+	Addr                         uint16
+	Mode                         uint8
+	BusM                         uint8
 }
 
 func bit(name string) uint8 {
